@@ -44,9 +44,19 @@ class ReduceCapacity:
         factor = self.factor
         original_capacity = resource._capacity
 
+        token = object()
+
+        def active_capacity():
+            # Windows on one resource may overlap: the lowest reduction still
+            # active is in force, and the original only when none is left.
+            active = resource.__dict__.setdefault("_capacity_reductions", [])
+            return min((c for _, c in active), default=original_capacity)
+
         def activate(e: Event) -> None:
-            new_capacity = original_capacity * factor
-            resource._capacity - new_capacity
+            resource.__dict__.setdefault("_capacity_reductions", []).append(
+                (token, original_capacity * factor)
+            )
+            new_capacity = active_capacity()
             resource._capacity = new_capacity
             # Clamp available to not exceed new capacity
             if resource._available > new_capacity:
@@ -60,14 +70,17 @@ class ReduceCapacity:
             )
 
         def deactivate(e: Event) -> None:
-            capacity_increase = original_capacity - resource._capacity
-            resource._capacity = original_capacity
+            active = resource.__dict__.setdefault("_capacity_reductions", [])
+            active[:] = [(t, c) for t, c in active if t is not token]
+            new_capacity = active_capacity()
+            capacity_increase = new_capacity - resource._capacity
+            resource._capacity = new_capacity
             # Restore available by the same amount capacity increased
             resource._available += capacity_increase
             logger.info(
                 "[FaultInjection] Restored '%s' capacity to %.1f at %s",
                 resource_name,
-                original_capacity,
+                new_capacity,
                 e.time,
             )
 
